@@ -10,18 +10,18 @@ from vverif.core import Result, HarnessError
 
 LEVEL = 'fault_enumeration'
 RULE = ('db = 16 KB header + n slots of 512 bytes; base images = every placement of one entry or two entries (1..3 chained slots '
-        'each, every assignment of chain slots to db positions, remaining slots blank); quick: n=3 all bases and the n=4 bases with two entries of 1+2 or 2+2 slots; thorough: n=4 and n=5 all bases; images = '
+        'each, every assignment of chain slots to db positions, remaining slots blank); quick: n=3 all bases and the n=4 bases with two entries of 1+2 or 2+2 slots; thorough: n=4 all bases and the n=5 bases whose entries all have 2 or 3 slots; images = '
         'each base image plus every single deviation: any cell-header field of any slot (used or blank) set to another value of '
         'its domain (key {zero,K1,K2,K1-colliding}, entrySize {0,total,total+-1}, payloadSize {0,p,p+-1,200,472,473}, version '
         '{0,1000,1001,2000}, firstSlot and nextSlot {-1..n}), a slot zeroed, a slot copied over another, the file truncated (0, '
         '100, header only, every slot boundary, 20/40/100/511 bytes into every slot); thorough additionally every pair (any '
-        'first deviation x a second header-field deviation) on the n=3 bases; every image is rebuilt by Rock::Rebuild in a forked '
+        'first deviation x a second header-field deviation) on the n=3 bases with two entries or a three-slot entry; every image is rebuilt by Rock::Rebuild in a forked '
         'worker process (events run on a jumping clock; a worker takes up to 48 images one after the other, tearing the cache_dir down in between like tests/testRock.cc, and every image it judges bad is re-run in a process of its own before it is reported) which then walks Ipc::StoreMap and the free-slot stack; non-trivial = images '
         'with a deviation on which the rebuild finished (the map was judged)')
 ASSUME = ['src/fs/rock/*, src/ipc/StoreMap.cc, src/store_rebuild.cc of the current tree as built (ASan) for the tests/testRock link set, '
           'driven like tests/testRock.cc (non-SMP, Blocking disk I/O); the db geometry is forced to n slots by setting the dir size after parse()',
           'entry payloads are written by the harness (swap metadata TLVs KEY_MD5, STD_LFS, URL + a reply) following store/SwapMeta.h',
-          'a process that dies in fatal()/assert/exception/ASan or does not finish within 400 event rounds / 30 s counts as a crash',
+          'a process that dies in fatal()/assert/exception/ASan or does not finish within 400 event rounds / 20 s of CPU time counts as a crash (re-run alone before it is reported)',
           'slots that end up neither free nor in a readable chain, and anchors left write-locked, are counted as observations, not violations',
           'opt_store_doublecheck (-S) is off']
 
